@@ -95,7 +95,7 @@ PROPS = {
         level_note="bit<->member map transcribed from the RFC 8618 StorageHints tables; asn/country/rtt have no bit",
         technique="property-based testing: generated configurations (single-bit sweeps + random masks) with invariant oracle on independent parse",
         assumptions=["response question list governed by query-question-sections (library documentation)"],
-        jobs=[dict(harness="hist", prop="hist_c04", cases=(10000, 250000), size=(25, 60))],
+        jobs=[dict(harness="hist", prop="hist_c04", cases=(20000, 400000), size=(25, 60))],
     ),
     "C10": dict(
         rule="C02 history generator (all compression modes, name/fd, rotations, external blocks, large strings). Oracle: per output, sum of the values returned by "
@@ -162,7 +162,7 @@ PROPS = {
         assumptions=["read_negative/read_integer only asked for int64-representable values"],
         jobs=[
             dict(harness="codec", prop="c07_sweep", kind="enum"),
-            dict(harness="codec", prop="c07_item", cases=(40000, 1600000), size=(30, 80)),
+            dict(harness="codec", prop="c07_item", cases=(240000, 4000000), size=(30, 80)),
         ],
     ),
     "C08": dict(
@@ -185,7 +185,7 @@ PROPS = {
         level_note="list members of CollectionParameters are plain vectors in the API: empty == absent",
         technique="property-based testing: round-trip with independent-reader differential",
         assumptions=[],
-        jobs=[dict(harness="reread", prop="c09_preamble", cases=(40000, 1000000), size=(30, 30))],
+        jobs=[dict(harness="reread", prop="c09_preamble", cases=(120000, 2000000), size=(30, 30))],
     ),
 
     "C11": dict(
@@ -228,7 +228,7 @@ PROPS = {
         level_note="serialisations are compared through the independent parser (AEC order is unspecified)",
         technique="property-based testing: stateful differential testing against a rebuilt reference, ASan as memory oracle",
         assumptions=[],
-        jobs=[dict(harness="tables", prop="c19_value", cases=(16000, 400000), size=(30, 80))],
+        jobs=[dict(harness="tables", prop="c19_value", cases=(32000, 600000), size=(30, 80))],
     ),
 
     "C14": dict(
@@ -285,7 +285,7 @@ PROPS = {
         level_note="only executed code can race; uninstrumented zlib/liblzma internals are invisible; the claim is 'no shared mutable state is touched by the generated workloads', not schedule completeness",
         technique="property-based testing: generated thread workloads, TSan race detection + sequential/concurrent differential",
         assumptions=["outputs of a workload are deterministic when run alone (checked: the sequential reference is compared with the concurrent run)"],
-        jobs=[dict(harness="mt", prop="c20_threads", cases=(160, 6000), size=(20, 40), args=["--shrink-budget", "60"])],
+        jobs=[dict(harness="mt", prop="c20_threads", cases=(640, 12000), size=(20, 40), args=["--shrink-budget", "60"])],
     ),
 
     "C03": dict(
